@@ -52,7 +52,9 @@ class Check:
         self.extra = {}
         self.rule = ''
         self.rng = random.Random(seed)
-        self.outdir = os.path.join(VERIF, 'out', prop)
+        # VERIF_SCRATCH: development runs against a scratch copy of the repository write their files elsewhere
+        self.base = os.environ.get('VERIF_SCRATCH') or VERIF
+        self.outdir = os.path.join(self.base, 'out', prop)
         if not os.environ.get('VERIF_REPLAY'):      # a replay must not delete the file it replays
             shutil.rmtree(self.outdir, ignore_errors=True)
         os.makedirs(self.outdir, exist_ok=True)
@@ -160,8 +162,8 @@ class Check:
         ev = {'property_id': self.prop, 'tier': self.tier, 'seed': self.seed, 'level': self.level,
               'coverage': cov, 'assumptions': self.assumptions, 'wall_s': round(wall, 1),
               'violations': len(self.violations)}
-        os.makedirs(os.path.join(VERIF, 'evidence'), exist_ok=True)
-        with open(os.path.join(VERIF, 'evidence', self.prop + '.json'), 'w') as f:
+        os.makedirs(os.path.join(self.base, 'evidence'), exist_ok=True)
+        with open(os.path.join(self.base, 'evidence', self.prop + '.json'), 'w') as f:
             json.dump(ev, f, indent=1, default=str)
         for k in self.known_seen:
             print('KNOWN-FINDING: property=%s %s' % (self.prop, k))
